@@ -5,6 +5,8 @@ The names come from the tree under test at run time:
   every dialect's BuiltInFunctions() / InfixOperators()      ("tables")
   QL.BULK_FUNCTIONS (StandardSQL functions from processed_functions.csv;
   thorough tier only)                                          ("bulk")
+  plus the aggregates ArgMax/ArgMin/ArgMaxK/ArgMinK/Array that every
+  dialect's LibraryProgram() defines                           ("library")
 Each name is turned into a rule over the facts B(1, "a"); B(2, "b") with
 variables x (number), s (string), l == [x, 2], ls == [s, "b"].  The argument
 shapes below are the only hand-written part; a name that has no entry is
@@ -57,6 +59,15 @@ INFIX_EXPR = {
 UNARY = {'!': '(!(x > 1))', '-': '(-x)'}
 ANALYTIC_ARGS = lambda name: ([X, '[s]', '[x]', '2'] if name.startswith('Window')
                               else [X, '[s]', '[x]'])
+
+# Aggregates every dialect library (LibraryProgram) defines in Logica itself.
+LIBRARY = collections.OrderedDict([
+    ('ArgMax', 'T(r? ArgMax= s -> x) distinct :- %s;'),
+    ('ArgMin', 'T(r? ArgMin= s -> x) distinct :- %s;'),
+    ('ArgMaxK', 'T() Aggr= ArgMaxK(s -> x, 2) :- %s;'),
+    ('ArgMinK', 'T() Aggr= ArgMinK(s -> x, 2) :- %s;'),
+    ('Array', 'T() Array= x -> s :- %s;'),
+])
 
 HEAD = ('@Engine("%s");\n@DefineFlag("c09flag", "v");\nB(1, "a");\nB(2, "b");\n')
 BODY = 'B(x, s), l == [x, 2], ls == [s, "b"]'
@@ -141,9 +152,12 @@ def Items(bulk):
       for k, v in t['bulk'].items():
         if k not in names:
           names[k] = ('bulk', 'fun', v[1], max(v[2], 0))
+    for k, v in LIBRARY.items():
+      if k not in names:
+        names[k] = ('library', 'lib', v % BODY, None)
     plan[e] = {}
     for name, (src, kind, template, arity) in names.items():
-      rule = Rule(name, kind, template, arity)
+      rule = template if kind == 'lib' else Rule(name, kind, template, arity)
       if rule is None:
         unbuildable.setdefault(name, []).append(e)
         continue
@@ -186,6 +200,8 @@ def Coverage(items, results, plan):
             [n for n in dialect_names if n in ok]),
         'dialect_table_keys_not_compiled': {
             n: diag.get(n, 'internal') for n in dialect_names if n not in ok},
+        'library_functions_compiled': [
+            n for n, s in plan[e].items() if s == 'library' and n in ok],
         'common_table_keys_not_compiled': {
             n: diag.get(n, 'internal') for n, s in plan[e].items()
             if s == 'common' and n not in ok},
